@@ -7,7 +7,7 @@ msg="$1"; shift
 mkdir -p .cache
 exec flock .cache/selftest.lock sh -c '
   /venv/bin/python -c "import sys; sys.path.insert(0, \"harness\"); import common; common.regenerate_tables()" || exit 2
-  out=$(tools/lk build HvsrVerif hvsrdrv drv_c07 drv_c10 drv_c14 drv_c15 drv_c19 drv_c20 2>&1)
+  out=$(tools/lk build HvsrVerif hvsrdrv drv_c07 drv_c10 drv_c14 drv_c15 drv_c19 drv_c20 drv_py 2>&1)
   echo "$out" | tail -1
   echo "$out" | grep -q "Build completed successfully" || { echo "$out" | grep -B2 -A12 "error" | head -60; exit 1; }
   if [ -n "$0" ]; then
